@@ -116,6 +116,25 @@ func genC11(seed uint64, index int, tier string) C11Cfg {
 	c.K = r.Intn(60)
 	c.J = r.Intn(150)
 	c.CancelAt = r.Intn(250)
+	// a third of the runs: the same scenario over small non-contiguous identifiers (order-preserving renaming)
+	if r.Bool(0.33) {
+		m := map[uint16]uint16{}
+		next := uint16(0)
+		for _, id := range s.Deploy.IDs {
+			next += uint16(r.Range(1, 9))
+			m[id] = next
+		}
+		ren := func(in []uint16) []uint16 {
+			var out []uint16
+			for _, id := range in {
+				out = append(out, m[id])
+			}
+			return out
+		}
+		c.Sess.Deploy.IDs = ren(s.Deploy.IDs)
+		c.Sess.Signers = ren(s.Signers)
+		c.P = m[c.P]
+	}
 	return c
 }
 
